@@ -19,6 +19,7 @@ type Opts struct {
 	MultiByte       bool
 	BigWords        bool // occasionally very long words (to cross buffer boundaries)
 	HeredocBodyPool int  // 0: all bodies; 1: only plain bodies
+	HDBias          bool // prefer here-documents at redirection sites and add redirections more often
 }
 
 func FullOpts() Opts {
@@ -390,7 +391,7 @@ func (g *G) redir() {
 	if g.S.Chance(1, 5) {
 		g.b.WriteString(g.S.Pick([]string{"0", "1", "2", "3", "10"}))
 	}
-	if g.O.Heredocs && g.canNewlineLater() && g.S.Chance(1, 3) {
+	if g.O.Heredocs && g.canNewlineLater() && (g.S.Chance(1, 3) || g.O.HDBias && g.S.Chance(1, 2)) {
 		g.heredoc()
 		return
 	}
@@ -545,14 +546,14 @@ func (g *G) simpleCmd() {
 				g.redir()
 			}
 		}
-		for g.S.Chance(1, 5) {
+		for g.S.Chance(1, 5) || g.O.HDBias && g.S.Chance(1, 4) {
 			g.redir()
 		}
 	}
 }
 
 func (g *G) compoundRedirs() {
-	for g.S.Chance(1, 6) {
+	for g.S.Chance(1, 6) || g.O.HDBias && g.S.Chance(1, 5) {
 		g.redir()
 	}
 }
